@@ -5,7 +5,7 @@ import z3
 
 from .. import common, meprogs, relmodel, templates
 from ..driver import HOLDS, INCONCLUSIVE, UNDECIDED, VIOLATION
-from ..prog import (Env, IllFormed, IllTyped, add_abstract_leaf, build, cols_of, fmt, from_jsonable, ops_of, pyeval, pytree, sem_seq, sem_tree,
+from ..prog import (Env, IllFormed, IllTyped, add_abstract_leaf, build, cols_of, fmt, from_jsonable, ops_of, pyeval, pytree, sem_seq, sem_tree, tree_problem,
                     to_jsonable)
 from ..symx import Skip, explore, zint
 from . import c14
@@ -419,6 +419,9 @@ def concrete_check(prog, rows, bind):
         return True, "columns-differ", sorted(map(str, rel.columns))
     leafrows = {n: rows.get(n, []) for n in meprogs.LEAVES}
     exp = pyeval(prog, leafrows, bind, env.tags)
+    tp = tree_problem(rel)
+    if tp:
+        return True, "tree-ill-formed", tp[:160]
     try:
         got = pytree(rel, leafrows)
     except Exception as e:  # noqa: BLE001
